@@ -167,6 +167,11 @@ func propC11(c *Ctx) {
 		c.Check("R11.1", "Insert/CopyFrom(ig.Columns, rows)", ins.Pos(), ok, "COPY is called with the lock-step column list and the built rows")
 	}
 
+	c.Rule("R11.5", "decoder rows are cleared before reuse (a column never keeps the previous log's value)", 2)
+	checkDecoderRowsCleared(c, "R11.5")
+	c.Rule("R11.6", "every log is attached to the block and transaction named by its own blockNumber / transactionIndex (block_num, block_hash, tx_hash of a row are those of the log's own block)", 2)
+	checkLogsGrouping(c, "R11.6")
+
 	// ---- R11.2 ----------------------------------------------------------
 	c.Rule("R11.2", "the field selector is injective: no two names return the same field path", 20)
 	byPath := map[string][]string{}
